@@ -80,7 +80,7 @@ def storage_step(ctx, lmax):
     n_paths = 0
 
     def mk_engine():
-        return sym.Engine([mf], registry, models=MODELS, eager=True)
+        return sym.Engine([mf], registry, models=MODELS, eager=True, loop_bound=lmax + 8)
 
     def token_index(eng, st_mem, tok):
         """Token::index on the returned token, from its MIR."""
